@@ -83,6 +83,7 @@ def work(case):
         out["fz"] = [c14.fuzzy_span(texts["clean"], e["target"]) for e in edits]
         r = engine_run.run_edits(data, edits)
         out["commit"] = {k: r[k] for k in ("applied", "skipped", "err")}
+        out["heur"] = {"edits": edits, "res": {k: v for k, v in r.items() if k != "out_bytes"}}
         out["final"] = engine_run.texts_of(r["out_bytes"])["clean"] if r["out_bytes"] else None
         singles = []
         for e in edits:
